@@ -130,6 +130,13 @@ def gen_program(rng, clock=None, n_events=None, p_cancel=0.12, p_bad=0.0,
         prog["int_literals"] = True        # whole numbers are passed as Python ints
     if rng.random() < 0.12:
         add_tc_listener(rng, prog)
+    if rng.random() < 0.08:
+        # a handler (or construct_model) runs a second simulator to its end
+        n = rng.randint(1, 5)
+        spec = {"n": n, "bound": rng.choice([None, None, 1, 2, n])}
+        lists = [roots] + [events[e] for e in sorted(events, key=int) if int(e) < 9000]
+        al = rng.choice(lists)
+        al.insert(rng.randint(0, len(al)), ["nested", spec])
     if unit:
         prog["unit"] = unit
         prog["display_unit"] = display_unit
